@@ -757,7 +757,9 @@ func (e *daemonEngine) collectEpoch(id string, members []int, epochNo int, old *
 		shares = append(shares, sh.Share)
 		if e.keepIO {
 			if b, err := sh.Share.V.MarshalBinary(); err == nil {
+				e.stdoutMu.Lock()
 				e.oldShares = append(e.oldShares, oldShare{n.addr, b})
+				e.stdoutMu.Unlock()
 			}
 		}
 	}
